@@ -130,8 +130,20 @@ def run_impl_many(plugin, cases, procs=None):
     stop_after = int(os.environ.get("VERIF_ABNORMAL_STOP", "12"))
     out, bad = [], 0
     pool = ctx.Pool(procs, initializer=_worker_init, initargs=(plugin.__name__, REPO))
+    chunk = max(1, min(4, len(cases) // (procs * 8) or 1))
+    # hard limit per result: the in-worker alarm cannot interrupt a loop that never returns to the bytecode
+    # interpreter (e.g. list.extend over an endless iterator); the parent then gives up on that case
+    hard = chunk * getattr(plugin, "CASE_TIMEOUT", 10) + 60
     try:
-        for o in pool.imap(_worker_run, cases, chunksize=max(1, min(8, len(cases) // (procs * 8) or 1))):
+        it = pool.imap(_worker_run, cases, chunksize=chunk)
+        while len(out) < len(cases):
+            try:
+                o = it.next(timeout=hard)
+            except StopIteration:
+                break
+            except mp.TimeoutError:
+                out.append({"__timeout__": True, "hard": "no result within %ds: the case never returned to the interpreter" % hard})
+                break
             out.append(o)
             if is_abnormal(o):
                 bad += 1
